@@ -7,7 +7,7 @@ import OV.Drivers.Loop
   name, base, `L` (list), `O` (optional), `D` (has default), `I` (integer-only Scalar), a dash standing for "no";
   `param` = eight fields name, `I` or `A`, attribute type, `R` (required), `V` (variadic), `P` (positional-or-keyword),
   annotation category (`missing`, `base:int`, `seqOf:int`, `otherOrigin`, `otherPlain`), `D` (python default))
-* `C16 rowk <same arguments as row>` → `true` | `false` (`bindsOkK`: also right for positional-by-keyword calls)
+* `C16 rowk <same arguments as row>` → `ok` | reasons why the row is outside `bindsOkK` (`kReasons`)
 * `C16 accepts <mode> <param> <aarg>` → `true` | `false`
 * `C16 bind <scripted|traced> <npos> <kw,kw|-> S <param>*` → `ok <slot>,<slot>…` (`p<i>` | `k:<name>` | `-`) | `err:<kind>`
 * `C16 name <codes>` → `true` | `false`
@@ -118,7 +118,10 @@ def handle (args : List String) : String :=
     (match parseMode m, sections rest with
      | some m, some (ps, ks, ss) =>
        (match ps.mapM parseAArg, ks.mapM parseAArg, ss.mapM parseParam with
-        | some ps, some ks, some ss => toString (bindsOkK m ⟨ps, ks⟩ ss)
+        | some ps, some ks, some ss =>
+          let rs := kReasons m ⟨ps, ks⟩ ss
+          if rs.isEmpty then "ok" else ",".intercalate (rs.map (fun r => match r with
+            | .ruleFails => "ruleFails" | .posName => "posName" | .requiredOwn => "requiredOwn" | .dupNames => "dupNames"))
         | _, _, _ => "bad-op")
      | _, _ => "bad-op")
   | ["accepts", m, prm, arg] =>
